@@ -41,8 +41,10 @@ package difflib
 //@   && (c.Tag == 1 ==> c.I1 == c.I2 && c.J1 < c.J2)
 //@   && (c.Tag == 2 ==> c.J1 == c.J2 && c.I1 < c.I2)
 //@   && (c.Tag == 3 ==> c.I1 < c.I2 && c.J1 < c.J2)
+//@ specfun opW(a Slice<Str>, b Slice<Str>, c S_difflib_OpCode) Bool
+//@ axiom opW_def: forall a Slice<Str>, b Slice<Str>, c S_difflib_OpCode {opW(a, b, c)}: opW(a, b, c) == opWeak(a, b, c)
 //@ specfun groupsOK(a Slice<Str>, b Slice<Str>, gs Slice<Slice<S_difflib_OpCode>>) Bool =
-//@      (forall g in 0..len(gs): len(gs[g]) >= 1 && (forall c in 0..len(gs[g]): opWeak(a, b, gs[g][c])))
+//@      (forall g in 0..len(gs): len(gs[g]) >= 1 && (forall c in 0..len(gs[g]): opW(a, b, gs[g][c])))
 //@ specfun hasChange(a Slice<Str>, b Slice<Str>, gs Slice<Slice<S_difflib_OpCode>>) Bool = exists g in 0..len(gs): exists c in 0..len(gs[g]): !sameR(a, b, gs[g][c])
 //@ mode all
 
@@ -152,8 +154,8 @@ package difflib
 //@   loop 1 invariant 0 <= $idx && $idx <= len(codes) && n >= 1 && nn == n + n
 //@   loop 1 invariant heap(sequenceMatcher.a) == old(heap(sequenceMatcher.a)) && heap(sequenceMatcher.b) == old(heap(sequenceMatcher.b))
 //@   loop 1 invariant groupsOK(A, B, groups)
-//@   loop 1 invariant (len(A) > 0 || len(B) > 0) ==> (forall c in 0..len(group): opWeak(A, B, group[c]))
-//@   loop 1 invariant (len(A) > 0 || len(B) > 0) ==> (forall k in 0..len(codes): opWeak(A, B, codes[k]))
+//@   loop 1 invariant (len(A) > 0 || len(B) > 0) ==> (forall c in 0..len(group): opW(A, B, group[c]))
+//@   loop 1 invariant (len(A) > 0 || len(B) > 0) ==> (forall k in 0..len(codes): opW(A, B, codes[k]))
 //@   loop 1 invariant (len(A) == 0 && len(B) == 0) ==> len(codes) == 1 && codes[0].Tag == 0 && codes[0].I2 - codes[0].I1 <= 1
 //@   loop 1 invariant (exists k in 0..$idx: !sameR(A, B, codes[k])) ==> hasChange(A, B, groups) || (exists c in 0..len(group): !sameR(A, B, group[c]))
 //@   loop 1 invariant (len(A) == 0 && len(B) == 0) ==> len(groups) == 0 && (forall c in 0..len(group): group[c].Tag == 0 && group[c].I2 - group[c].I1 == group[c].J2 - group[c].J1) && len(group) <= $idx
